@@ -34,7 +34,48 @@ _mon = Monitor()
 
 
 def units(tier):
-    return [{'k': 'rand', 'i': i} for i in range(N_CASES[tier])]
+    out = [{'k': 'rand', 'i': i} for i in range(N_CASES[tier])]
+    # systems with more than 2^24 pair distances in total (frames x atoms x atoms)
+    out += [{'k': 'bigpair', 'i': i} for i in range(1 if tier == 'quick' else 3)]
+    return out
+
+
+def run_bigpair(unit, rng, ctx):
+    """Many pairs x many frames: the species-pair RDF is additive over frame ranges (its normalisation does not
+    depend on the number of frames), so the RDF of the whole run equals the sum of the RDFs of its two halves - and the
+    raw counts of a short prefix are checked against the brute-force histogram."""
+    from gemdat.rdf import radial_distribution_between_species
+
+    kind, rot, m = geom.random_lattice(rng, lo=14.0, hi=18.0)
+    n1, n2 = int(rng.integers(100, 121)), int(rng.integers(160, 181))
+    T = int(2**24 // (n1 * n2) + rng.integers(60, 200))
+    base = rng.uniform(0, 1, size=(1, n1 + n2, 3))
+    P = np.mod(base + np.cumsum(rng.normal(scale=0.004, size=(T, n1 + n2, 3)), axis=0), 1)
+    names = ['Li'] * n1 + ['S'] * n2
+    traj = gen.make_trajectory(m, gen.species_objects(names), P, presentation='plain')
+    max_dist, res = 4.0, 0.25
+    what = f'{kind}{"/rot" if rot else ""} {n1} Li x {n2} S x {T} frames = {n1 * n2 * T} pair distances'
+    h = int(rng.integers(T // 3, 2 * T // 3))
+    full = radial_distribution_between_species(trajectory=traj, specie_1='Li', specie_2='S', max_dist=max_dist, resolution=res)
+    a = radial_distribution_between_species(trajectory=traj[:h], specie_1='Li', specie_2='S', max_dist=max_dist, resolution=res)
+    b = radial_distribution_between_species(trajectory=traj[h:], specie_1='Li', specie_2='S', max_dist=max_dist, resolution=res)
+    yf, ya, yb = (np.asarray(x.y, dtype=float) for x in (full, a, b))
+    ctx.check(yf.shape == ya.shape == yb.shape and np.allclose(yf, ya + yb, rtol=1e-9, atol=1e-12), f'{what}: the RDF of the whole run is not the sum of the RDFs of frames [0, {h}) and [{h}, {T}) (total {yf.sum()!r} vs {(ya + yb).sum()!r})', {'matrix': m})
+    # brute force on a few frames spread over the run, incl. the last ones
+    frames = sorted({0, 1, T // 2, T - 2, T - 1})
+    vol = abs(np.linalg.det(m))
+    bins = np.arange(0, max_dist + res, res)
+    shell = (bins + res) ** 3 - bins**3
+    norm = (n2 / vol) * (4 / 3) * np.pi * shell[:-1]
+    for t in frames:
+        one = radial_distribution_between_species(trajectory=traj[t : t + 1], specie_1='Li', specie_2='S', max_dist=max_dist, resolution=res)
+        d = geom.min_image(m, P[t, :n1], P[t, n1:]).ravel()
+        near = np.abs(d / res - np.round(d / res)) * res < 1e-9
+        cnt, _ = np.histogram(d[~near], bins=bins)
+        got = np.asarray(one.y) * norm
+        ctx.check(bool(np.all(got >= cnt - 1e-6) and np.all(got <= cnt + near.sum() + 1e-6)), f'{what}: frame {t}: raw pair counts differ from the brute-force histogram', {'matrix': m})
+    ctx.count('pair_distances_in_the_largest_system', n1 * n2 * T)
+    ctx.case(f'bigpair{unit["i"]}', True, sample={'kind': 'bigpair', 'Li': n1, 'S': n2, 'frames': T, 'pair_distances': n1 * n2 * T})
 
 
 def setup(ctx):
@@ -90,6 +131,9 @@ def within(got, cnt, amb):
 
 def run_unit(unit, rng, ctx):
     from gemdat.rdf import radial_distribution, radial_distribution_between_species
+
+    if unit['k'] == 'bigpair':
+        return run_bigpair(unit, rng, ctx)
 
     skewed = unit['i'] % 4 == 1
     sys_ = gen.make_site_system(rng, kind=(str(rng.choice(['triclinic_strong', 'rhombohedral', 'hexagonal', 'monoclinic'])) if skewed else None), T=int(rng.integers(6, 40)), n_sites=int(rng.integers(2, 7)), n_atoms=int(rng.integers(1, 4)), margin=0.04, p_move=float(rng.choice([0.2, 0.4, 0.6])), n_framework=int(rng.integers(2, 6)), n_labels=int(rng.integers(1, 4)), lo=5.0, hi=9.0)
